@@ -26,6 +26,7 @@ FAM_NIN = {
     "grid": lambda tier: 2 * 256 * nb(tier) + nb(tier) ** 2 + extra(tier),
     "full8": lambda tier: 65536 + extra(tier),
     "low8": lambda tier: 256 + extra(tier),
+    "low5": lambda tier: 32 + extra(tier),
 }
 
 
